@@ -1065,7 +1065,18 @@ class Engine:
             cs.ghost[gn] = self.fresh_val({'real': 'double', 'double': 'double', 'int': 'int', 'uint': 'uint', 'bool': 'bool'}.get(gt, gt), 'g.' + gn, cs, constrain=False)
             if gn in st.ghost: cs.ghost[gn] = st.ghost[gn]     # ghost arguments are passed by name
         for p in f.params:
-            if p[1] == 'fun' and isinstance(env.get(p[0]), Fun): pass
+            if p[1] == 'fun' and isinstance(env.get(p[0]), Fun):
+                # the callee's contract names its callback by an uninterpreted function; the actual argument must be the
+                # caller's callback with the same name, otherwise the clauses would talk about a different function
+                cb = sp.callbacks.get(p[0])
+                want = cb['uf'] if cb else None
+                act = env[p[0]]
+                mine = None
+                if self.cur is not None:
+                    for cn, c2 in self.cur.callbacks.items():
+                        mine = c2['uf'] if mine is None else mine
+                if want is not None and (act.lam is not None or (mine is not None and mine != want)):
+                    raise E2Error('call %s: the contract names its callback %s but a different function is passed (callback renaming is not supported)' % (f.qual, want))
         gstate = [gn for gt, gn in sp.ghost_state]
         for gn in gstate:
             if gn not in st.env: raise E2Error('call %s: ghost state %s is not declared in the caller' % (f.qual, gn))
@@ -1192,7 +1203,7 @@ class Engine:
         good = []
         for p, status, rv in paths:
             if status == 'exit':
-                if self.mode != 'reject':
+                if self.mode != 'reject' and not (self.cur is not None and self.cur.options.get('may_exit')) and not (sp is not None and sp.options.get('may_exit')):
                     self.oblige(p, z3.BoolVal(False), 'call.noexit', 'call %s: callee does not terminate the process' % f.qual)
                 continue
             good.append((p, rv))
@@ -1650,26 +1661,41 @@ class Verifier(Engine):
                     f = None
                 if f is not None:
                     args = list(e.args)
-                    if getattr(e, 'method', False):
-                        o = args.pop(0)
-                        if not f.is_const and not (f.ret_ref and self.is_accessor(f)):
-                            sp = self.spec_of(e.fn)
-                            if sp is not None and sp.assigns is not None and o.k == 'var':
-                                for t in sp.assigns:
+                    sp_ = self.spec_of(e.fn)
+                    inl = (sp_ is not None and sp_.inline) or (self.cur is not None and (f.qual in self.cur.inline_callees or f.name in self.cur.inline_callees))
+                    o = args.pop(0) if getattr(e, 'method', False) else None
+                    if inl and getattr(self, '_mod_depth', 0) < 6:
+                        # effect of an inlined callee: its own assigned fields / reference parameters, mapped to the call site
+                        self._mod_depth = getattr(self, '_mod_depth', 0) + 1
+                        try:
+                            sub = self.modset(f.body, {})
+                        finally:
+                            self._mod_depth -= 1
+                        byref = {pn: a for (pn, pt, br), a in zip(f.params, args) if br}
+                        for key, how in sub.items():
+                            if key[0] == 'fld' and key[1] == 'self' and o is not None:
+                                self.mod_lv(IR.E('field', None, base=o, name=key[2]), acc, whole=(how == 'whole'))
+                            elif key[0] == 'var' and key[1] == 'self' and o is not None:
+                                self.mod_lv(o, acc, whole=True)
+                            elif key[0] == 'var' and key[1] in byref:
+                                self.mod_lv(byref[key[1]], acc, whole=(how == 'whole' and byref[key[1]].k != 'index'))
+                    else:
+                        if o is not None and not f.is_const and not (f.ret_ref and self.is_accessor(f)):
+                            if sp_ is not None and sp_.assigns is not None and o.k == 'var':
+                                for t in sp_.assigns:
                                     if t.k == 'field' and t.base.k == 'name' and t.base.name == 'self':
                                         acc[('fld', o.name, t.name)] = 'whole'
                             else:
                                 self.mod_lv(o, acc, whole=True)
-                    sp_ = self.spec_of(e.fn)
-                    touched = None
-                    if sp_ is not None and sp_.assigns is not None:
-                        touched = set()
-                        for t in sp_.assigns:
-                            y = t
-                            while y.k in ('field', 'index'): y = y.base
-                            if y.k == 'name': touched.add(y.name)
-                    for (pn, pt, br), a in zip(f.params, args):
-                        if br and (touched is None or pn in touched) and pt not in ('prng',): self.mod_lv(a, acc, whole=True)
+                        touched = None
+                        if sp_ is not None and sp_.assigns is not None:
+                            touched = set()
+                            for t in sp_.assigns:
+                                y = t
+                                while y.k in ('field', 'index'): y = y.base
+                                if y.k == 'name': touched.add(y.name)
+                        for (pn, pt, br), a in zip(f.params, args):
+                            if br and (touched is None or pn in touched) and pt not in ('prng',): self.mod_lv(a, acc, whole=True)
         for v in e.__dict__.values():
             if isinstance(v, IR.E): self.mod_expr(v, acc)
             elif isinstance(v, list):
@@ -1836,6 +1862,8 @@ class Verifier(Engine):
             for p, status, rv in paths:
                 if status == 'exit':
                     nexit += 1
+                    if mode == 'accept' and fs.options.get('may_exit'):
+                        continue      # documented give-up exit (iteration cap): partial correctness, reported in the goals file
                     if mode == 'accept':
                         self.oblige(p, z3.BoolVal(False), 'exit_unreachable', 'a meaningful request never terminates the process' + (' (valid: !(%s))' % fs.exits_iff.text if fs.exits_iff else ''))
                     continue
